@@ -864,11 +864,11 @@ def main(ctx):
     ctx.bounds['mode'] = 'nrt only (RT-virtual mode not available)'
     if ctx.tier == 'quick':
         grid, nsh = GRID_Q, 64
-        e2 = [('affine', AFF_Q, 5), ('affine', AFF_3, 4),
-              ('pending', PEND_Q, 4)]
+        e2 = [('affine', AFF_Q, 5), ('affine', AFF_3, 5),
+              ('pending', PEND_Q, 5)]
     else:
         grid, nsh = GRID_T, 256
-        e2 = [('affine', AFF_T, 5), ('affine', AFF_3, 6),
+        e2 = [('affine', AFF_T, 6), ('affine', AFF_3, 7),
               ('pending', PEND_T, 5)]
     ctx.bounds['grid_alphabet'] = {k: (v if len(v) < 12 else
                               f'{v[0]}..{v[-1]} step 0.25 ({len(v)})')
